@@ -39,6 +39,7 @@ var c06Msg = mkSpace("message", []fieldDim{
 	{"Optional", []string{"", "all"}},
 	{"Lex", []string{"", "cdata", "charref", "attr-charref", "comments", "bom", "tagws", "all"}},
 	{"Flate", []string{"", "stored", "flushed", "chunks"}},
+	{"Sibling", []string{"", "custom-endpoints-after", "custom-endpoints-before", "insecure-host-path-after"}},
 	{"B64Wrap", []string{"", "64crlf"}},
 	{"KeyFault", []string{"", world.FaultError, world.FaultNilRecord, world.FaultNoCert, world.FaultNoKey}},
 })
